@@ -38,7 +38,7 @@ func init() {
 				}
 				return 120_000
 			}, Run: c17Encoder,
-				Min: map[string]int64{"pairs": 100000, "A_erroneous": 10000, "A_mid_path": 10000, "A_highres": 10000, "A_pending_run": 10000, "bytes_twice": 100000, "encode_twice": 100000, "flag_before_reset": 10000, "B_all_zero_metadata": 5000, "B_metadata_equals_A_metadata": 2000}},
+				Min: map[string]int64{"pairs": 100000, "A_erroneous": 10000, "A_mid_path": 10000, "A_highres": 10000, "A_pending_run": 10000, "bytes_twice": 100000, "encode_twice": 100000, "flag_before_reset": 10000, "B_all_zero_metadata": 5000, "encodings_with_observers_between_calls": 100000, "B_metadata_equals_A_metadata": 2000}},
 			{Name: "renderer", N: func(t string) uint64 {
 				if t == "thorough" {
 					return 4_000_000
@@ -219,6 +219,7 @@ func c17Encoder(c *run.Ctx, idx uint64) {
 		c.Count("B_with_helper_readback", 1)
 	}
 	selMismatch := ""
+	observe := false
 	callerTransforms := append(make([]generate.Aff3, 0, 4), generate.Scale(2, 3), generate.Translate(-5, 4), generate.Scale(0.5))
 	// runB encodes program B on e: after Reset(vbB, palB), or — reset false, only
 	// used with the default metadata — on a never-Reset zero-value Encoder. The
@@ -247,12 +248,24 @@ func c17Encoder(c *run.Ctx, idx uint64) {
 				g.SetPathData("M1 2l3 4h2V7z", 1)
 			}
 			rec.Apply(e, &b[i])
+			if observe {
+				// pure observers between the calls: they must not change what is encoded
+				switch i % 3 {
+				case 0:
+					e.Bytes()
+				case 1:
+					e.CSel()
+				default:
+					e.NSel()
+					e.Bytes()
+				}
+			}
 		}
 		out, err := e.Bytes()
 		return append([]byte(nil), out...), err
 	}
-	var reused, fresh, fresh2, again3, zero []byte
-	var errR, errF, err3, errZ error
+	var reused, fresh, fresh2, again3, zero, observed []byte
+	var errR, errF, err3, errZ, errO error
 	defaultMeta := vbB == ivg.DefaultViewBox && palB == ivg.DefaultPalette
 	ok := c.Guard("encoder reuse", func() interface{} { return desc(nil) }, func() {
 		var e encode.Encoder
@@ -293,6 +306,14 @@ func c17Encoder(c *run.Ctx, idx uint64) {
 		f2.HighResolutionCoordinates = true
 		fresh2, _ = runB(&f2, nil, true)
 		c.Count("encode_twice", 1)
+		{
+			// the same calls with Bytes/CSel/NSel read between them
+			var fo encode.Encoder
+			observe = true
+			observed, errO = runB(&fo, nil, true)
+			observe = false
+			c.Count("encodings_with_observers_between_calls", 1)
+		}
 		if defaultMeta {
 			// a fresh object is also a zero-value Encoder that is never Reset (default metadata implied)
 			var f0 encode.Encoder
@@ -328,6 +349,10 @@ func c17Encoder(c *run.Ctx, idx uint64) {
 	}
 	if err3 != nil || !bytes.Equal(again3, fresh) {
 		c.Violate("encoder/same-program-again-on-same-objects-differs", desc(map[string]interface{}{"error": errStr(err3), "again": hx(again3), "fresh": hx(fresh)}))
+		return
+	}
+	if errO != nil || !bytes.Equal(observed, fresh) {
+		c.Violate("encoder/observer-calls-between-the-calls-change-the-bytes", desc(map[string]interface{}{"error": errStr(errO), "with_observers": hx(observed), "without": hx(fresh)}))
 		return
 	}
 	if defaultMeta && (errZ != nil || !bytes.Equal(zero, fresh)) {
